@@ -318,6 +318,7 @@ impl ParsedPacket {
         if self.packet().len() + rr_len > DNS_MAX_UNCOMPRESSED_SIZE {
             bail!(DSError::PacketTooLarge)
         }
+        self.rrcount_inc(section)?;
         let insertion_offset = self.insertion_offset(section)?;
         let packet_len = self.packet().len();
         let new_len = packet_len + rr_len;
@@ -330,7 +331,6 @@ impl ParsedPacket {
             packet.copy_within(insertion_offset..packet_len, insertion_offset + rr_len);
             packet[insertion_offset..insertion_offset + rr_len].copy_from_slice(&rr.packet);
         }
-        self.rrcount_inc(section)?;
         match section {
             Section::Question => {
                 self.offset_question = self.offset_question.or(Some(insertion_offset));
